@@ -196,8 +196,8 @@ func BaseCfg(env *sim.Env, gi int) *oracle.Cfg {
 // Observe builds the scan context and advances the cross-scan models.
 func (h *History) Observe(rec *sim.ScanRecord) *ScanCtx {
 	sc := &ScanCtx{Rec: rec}
-	sc.Exact = rec.FaultHits == 0 && !rec.Stale && !rec.Crashed && rec.Panic == nil && !rec.Fatal
-	sc.UpExact = !rec.Stale && !rec.Crashed && rec.Panic == nil && !rec.Fatal
+	sc.Exact = rec.FaultHits == 0 && !rec.Stale && !rec.MidScan && !rec.Crashed && rec.Panic == nil && !rec.Fatal
+	sc.UpExact = !rec.Stale && !rec.MidScan && !rec.Crashed && rec.Panic == nil && !rec.Fatal
 	for _, e := range rec.Events {
 		if e.Injected && ((e.API != sim.AwsTermASG && e.API != sim.K8sDelete) || e.Applied) {
 			// (a lost reply - the call took effect but reported failure - leaves escalator with a wrong picture of the cloud)
